@@ -20,6 +20,10 @@ CASE (plain JSON-able dict)
    'policy': {'kind': 'seeded'|'fifo'|'lifo'|'starve'|'main_last'|'main_first'|'script'|'first', 'seed': int, 'i': int},
    'schedule': [...] (optional: recorded decisions of a previous run -> exact replay; thread: thread ids
                       ('M' | worker index), process: task ids in token release order),
+   'share': {'attrs': [...], 'empty': bool} (optional, gen_case(p_share_lists=...)): in the dodo namespace all tasks whose
+             value of a listed attribute (setup / task_dep / calc_dep / file_dep / targets) is equal get ONE list object
+             ('empty': also the empty value is passed explicitly and shared) -- doit must copy, not alias,
+   'meta_names': True (optional, gen_case(p_meta_names=...)): task names contain [ ] ? { } % (literal names, never patterns),
    'model': {...}}                   # model-level input computed by expand() (own expansion, never read back from doit)
   TASK = {'name': str, 'kind': 'task'|'group'|'sub', 'group': basename (sub only),
           'task_dep': [names], 'setup': [names], 'calc_dep': [names], 'result_dep': [names],
@@ -234,12 +238,16 @@ def _pick_weighted(rng, weights, allowed):
 def gen_case(rng, n_min=3, n_max=9, runner=None, nproc=None, weights=None, p_group=0.3, p_shared=0.5,
              p_dual=0.08, p_dup_sel=0.15, p_ignored=0.07, p_utd=0.18, p_error=0.07, p_failed=0.14, p_exc=0.08,
              p_teardown=0.25, p_cont=0.4, p_always=0.06, p_calc_deliver=0.85, sel_mode=None, policy=None,
-             allow_cycle=False, all_ok=False):
+             allow_cycle=False, all_ok=False, p_meta_names=0.0, p_share_lists=0.0):
     """One random run case.  Graph: 3..9 tasks in a hidden topological order (all edges, static and delivered by calc
     results, go from later to earlier rank, so the graph is acyclic unless allow_cycle), then the definition order is
     shuffled.  Edge kinds: task_dep / setup / calc_dep / file (target->file_dep) / getargs (setup edge) / result_dep
     (task_dep edge) / getargs_setup (getargs whose source is also in `setup`).  Knobs: see signature; `weights`
-    overrides DEFAULT_WEIGHTS; runner in serial|thread|process (None: serial); all_ok: no failures/ignores/utd."""
+    overrides DEFAULT_WEIGHTS; runner in serial|thread|process (None: serial); all_ok: no failures/ignores/utd.
+    Opt-in knobs (default 0.0 = case stream unchanged, no extra draw from `rng`): p_meta_names = probability that task
+    names get glob / format metacharacters (`t[3]`, `t?3`, `t{3}`, `g[0]:a?`; see apply_meta_names); p_share_lists =
+    probability that tasks with equal `setup` / `task_dep` / `calc_dep` / `file_dep` / `targets` values are given ONE
+    shared list object in the dodo namespace (case['share'], see build_namespace)."""
     w = dict(DEFAULT_WEIGHTS)
     w.update(weights or {})
     n = rng.randint(n_min, n_max)
@@ -436,6 +444,12 @@ def gen_case(rng, n_min=3, n_max=9, runner=None, nproc=None, weights=None, p_gro
     else:
         case['nproc'] = nproc or rng.choice([2, 3])
     case['policy'] = policy or {'kind': 'seeded', 'seed': rng.randrange(1 << 30)}
+    # ---- opt-in: legal but unusual task names; shared list objects in the task dicts
+    if p_meta_names and rng.random() < p_meta_names:
+        apply_meta_names(case, rng)
+    if p_share_lists and rng.random() < p_share_lists:
+        case['share'] = {'attrs': sorted(rng.sample(SHARE_ATTRS, rng.randint(1, len(SHARE_ATTRS)))),
+                         'empty': rng.random() < 0.7}
     # ---- a task that is up-to-date by constant must not receive a file_dep (its status would flip to run)
     _mute_file_delivery_to_utd(case)
     # ---- keep the dynamic graph acyclic: drop calc results until it is
@@ -450,6 +464,56 @@ def gen_case(rng, n_min=3, n_max=9, runner=None, nproc=None, weights=None, p_gro
                     break
             case['model'] = expand(case)
     return case
+
+
+SHARE_ATTRS = ['setup', 'task_dep', 'calc_dep', 'file_dep', 'targets']
+
+META_STYLES = ['%s[%s]', '%s?%s', '%s{%s}', '%s[%s]?', '%s{%s}[x]', '[%s]%s', '%s%%%s']
+
+
+def rename_tasks(case, mapping):
+    """rename tasks in place: `mapping` maps old names of plain tasks / sub-tasks / group basenames to new names; every
+    reference (deps, getargs sources, calc results, group membership, selection) follows.  The model works on indices, so
+    it is unaffected except through the set-iteration orders that `expand` takes from the real string hashes."""
+    def m(x):
+        return mapping.get(x, x)
+    for t in case['tasks']:
+        t['name'] = m(t['name'])
+        if t.get('group') is not None:
+            t['group'] = m(t['group'])
+        for k in ('task_dep', 'setup', 'calc_dep', 'result_dep'):
+            t[k] = [m(x) for x in t[k]]
+        t['getargs'] = [[a, m(src), key] for a, src, key in t['getargs']]
+        if t.get('calc_res') is not None:
+            for k in ('task_dep', 'calc_dep'):
+                if k in t['calc_res']:
+                    t['calc_res'][k] = [m(x) for x in t['calc_res'][k]]
+    if case.get('sel') is not None:
+        case['sel'] = [m(x) for x in case['sel']]
+
+
+def apply_meta_names(case, rng, p_each=0.6):
+    """give some tasks names containing characters that are special to fnmatch / str.format / %-formatting but legal in
+    a doit task name (`*`, `=` and a leading `-` are not used: they mean something on the command line).  A sub-task keeps
+    the form `<group basename>:<sub name>`; both parts may change."""
+    mapping = {}
+    def meta(name):
+        head, tail = (name[:-1], name[-1]) if len(name) > 1 else (name, 'x')
+        return rng.choice(META_STYLES) % (head, tail)
+    for t in case['tasks']:
+        if t['kind'] in ('task', 'group') and rng.random() < p_each:
+            mapping[t['name']] = meta(t['name'])
+    for t in case['tasks']:
+        if t['kind'] == 'sub':
+            base, sub = t['name'].split(':', 1)
+            new_sub = meta(sub + sub) if rng.random() < p_each else sub
+            new = mapping.get(base, base) + ':' + new_sub
+            if new != t['name']:
+                mapping[t['name']] = new
+    # keep names unique
+    if len(set(mapping.get(t['name'], t['name']) for t in case['tasks'])) == len(case['tasks']):
+        rename_tasks(case, mapping)
+        case['meta_names'] = True
 
 
 def _mute_file_delivery_to_utd(case):
@@ -500,6 +564,12 @@ def nontrivial(case, obs=None):
 
 def count_case(st, case, obs=None):
     """histogram of the input distribution (and of the branches the implementation took) into st.count"""
+    if case.get('meta_names'):
+        st.count('names:metachars')
+    if case.get('share'):
+        st.count('share:lists')
+        for _a in case['share'].get('attrs', ()):
+            st.count('share:' + _a)
     m = case.get('model') or expand(case)
     st.count('n=%d' % m['n'])
     st.count('runner:%s' % case['runner'] + (':%d' % case['nproc'] if case['runner'] != 'serial' else ''))
@@ -733,12 +803,22 @@ def build_namespace(case, rec):
     sub-tasks by 'basename' + 'name', which makes doit create the group task) + DOIT_CONFIG"""
     from doit.task import result_dep
     tasks = case['tasks']
+    share = case.get('share') or {}
+    share_attrs = set(share.get('attrs', ()))
+    pool = {}
+
+    def lst(k, values):
+        """the list object given to doit for attribute k: a fresh copy, or (case['share']) ONE object for all tasks whose
+        value is equal -- doit must not let one task's implicit additions leak into the others"""
+        if k in share_attrs:
+            return pool.setdefault((k, tuple(values)), list(values))
+        return list(values)
 
     def task_gen():
         for n, t in enumerate(tasks):
             if t['kind'] == 'group':
                 if t['task_dep']:
-                    yield {'basename': t['name'], 'name': None, 'task_dep': list(t['task_dep'])}
+                    yield {'basename': t['name'], 'name': None, 'task_dep': lst('task_dep', t['task_dep'])}
                 continue
             d = {'actions': [_make_action(rec, n, t)]}
             if t['kind'] == 'sub':
@@ -747,8 +827,8 @@ def build_namespace(case, rec):
             else:
                 d['basename'] = t['name']
             for k in ('task_dep', 'setup', 'calc_dep', 'file_dep', 'targets'):
-                if t[k]:
-                    d[k] = list(t[k])
+                if t[k] or (k in share_attrs and share.get('empty')):
+                    d[k] = lst(k, t[k])
             upt = []
             if t['status'] == 'utd':
                 upt.append(True)
@@ -2167,13 +2247,14 @@ if __name__ == '__main__':
     _rng = random.Random(int(sys.argv[2]) if len(sys.argv) > 2 else 0)
     _pairs = []
     for _ in range(int(sys.argv[3]) if len(sys.argv) > 3 else 100):
-        _c = gen_case(_rng, runner=_runner)
+        _c = gen_case(_rng, runner=_runner, **json.loads(os.environ.get('RUNLIB_KNOBS', '{}')))
         if _runner == 'thread':
             _c['policy'] = gen_policy(_rng, _c['nproc'])
         _pairs.append((_c, run_impl(_c, keep_raw=False)))
     _n = 0
     for (_c, _o), _a in zip(_pairs, ask_model(_pairs)):
-        if 'error' in _a or _a.get('accepted') or _a.get('skipped'):
+        _mon = _a.get('monitor') or {}
+        if 'error' in _a or ((_a.get('accepted') or _a.get('skipped')) and all(_mon.values())):
             continue
         _n += 1
         print(render(_c))
